@@ -70,6 +70,7 @@ def run(check, prog):
     calculator_parity(check, prog, canon)
     phi_quadrature(check, prog)
     polarization_pins(check, prog)
+    f2py_coordinate_roles(check, prog)
 
 
 # ----------------------------------------------------------------------
@@ -535,3 +536,76 @@ def polarization_pins(check, prog):
             else:
                 check.ok('V-polarisation-pinned', construct, '', loc)
     check.floor('theory methods scanned for pinned polarisation', n, 10)
+
+
+# ----------------------------------------------------------------------
+def f2py_coordinate_roles(check, prog):
+    """At every call of a compiled routine from theory code that unpacks a row of
+    the (r, theta, phi) position array, a coordinate lands in the dummy argument
+    the Fortran source names for it: the component taken at index 1 (polar angle)
+    never goes to a dummy called PHI, etc.  The Python positional order is derived
+    from the Fortran header by f2py's rules (intent(out) dummies are results,
+    integer extents of input arrays are optional and moved last)."""
+    import os
+    from hpstatic.fortran import f2py_signatures
+    TH = 'holopy.scattering.theory.'
+    ROLE = {0: {'KR', 'R', 'RHO', 'KRHO'}, 1: {'THETA'}, 2: {'PHI'}}
+    ALLROLES = set().union(*ROLE.values())
+    sigs = {}
+    for rel in ('holopy/scattering/theory/mie_f/mieangfuncs.f90',
+                'holopy/scattering/theory/mie_f/uts_scsmfo.for'):
+        p = os.path.join(prog.root, rel)
+        if not os.path.exists(p):
+            raise AnalysisError('Fortran source %s not found' % rel)
+        mod = os.path.basename(rel).split('.')[0]
+        for name, args in f2py_signatures(p).items():
+            sigs[(mod, name)] = args
+    sites = 0
+    for q in (TH + 'scatteringtheory.ScatteringTheory.raw_fields',
+              TH + 'tmatrix.Tmatrix.raw_fields', TH + 'mie.Mie.raw_scat_matrs'):
+        fd = prog.func(q)
+        loc = prog.loc(q, fd)
+        cq = q.rpartition('.')[0]
+        hit = prog.lookup(cq, 'desired_coordinate_system')
+        system = None
+        if hit and hit[0] == 'classattr':
+            v = Interp(prog).eval_classattr(hit[1], hit[2])
+            system = v[1] if v[0] == 'const' else None
+        if system != 'spherical':
+            # the role table below is for (r, theta, phi) rows only
+            raise AnalysisError('%s: positions are not spherical (%r)' % (cq, system))
+        it = Interp(prog, max_depth=1, opaque=[
+            TH + 'mie.Mie._scat_coeffs', cq + '.raw_scat_matrs'])
+        it.analyze(q)
+        for c in it.calls:
+            nm = c['name']
+            parts = nm.split('.')
+            if len(parts) < 2 or parts[-2] not in ('mieangfuncs', 'uts_scsmfo'):
+                continue
+            mod, rname = parts[-2], parts[-1].upper()
+            sig = sigs.get((mod, rname))
+            for i, a in enumerate(c['args']):
+                if not (a[0] == 'idx' and a[2][0] == 'num' and a[1][0] == 'elem' and
+                        a[1][1][0] == 'attr' and a[1][1][2] == 'T'):
+                    continue
+                k = int(a[2][1])
+                if k not in ROLE:
+                    continue
+                sites += 1
+                if sig is None or i >= len(sig):
+                    raise AnalysisError('no Fortran signature for %s argument %d'
+                                        % (nm, i + 1))
+                dummy = sig[i]
+                if dummy not in ALLROLES:
+                    continue        # a dummy with another name: no statement
+                short = q.split('.')[-2] + '.' + q.split('.')[-1]
+                check.require(
+                    dummy in ROLE[k], 'A-coordinate-slots',
+                    '%s -> %s argument %d' % (short, rname.lower(), i + 1),
+                    'position component %d (%s) is received by dummy %s' % (
+                        k, sorted(ROLE[k])[-1].lower(), dummy), loc,
+                    fail_detail='component %d of the (r, theta, phi) row is passed '
+                    'where %s(%s) expects %s' % (k, rname.lower(),
+                                                 ', '.join(x.lower() for x in sig),
+                                                 dummy.lower()))
+    check.floor('coordinates handed to compiled routines', sites, 7)
